@@ -68,6 +68,10 @@ def doc_corpus():
          "4000000000\n4000000001\ntrue\n"),
         ("array literal in argument position evaluates each element once", "function f(int k) -> int { echo(\"f\" + k); return k; }\nfunction s(int[] v) -> int { return v[0] + v[1]; }\n"
          "function main() -> void { echo(s({f(1), f(2)})); int[] a = {0}; a = {f(3)}; echo(a); }", "f1\nf2\n3\nf3\n{3}\n"),
+        ("int literal array as a long[] / float[] argument of a method and a constructor",
+         "class O { public long[] ls; public constructor(long[] l) -> O { this.ls = l; return this; }\n  public function g(float[] a) -> void { echo(a[0] / 2); }\n"
+         "  public function h(long[] a) -> long { return a[0] * a[0]; } }\n"
+         "function main() -> void { O o = new O({100000, 2}); o.g({1, 2}); echo(o.h({100000})); echo(o.ls[0] * o.ls[0]); }", "0.5\n10000000000\n10000000000\n"),
         ("a local named like a field, initialised from the field", "class C { public int y = 41; public constructor() -> C { }\n  public function m() -> int { int y = y + 1; return y; } }\n"
          "function main() -> void { C c = new C(); echo(c.m()); echo(c.y); }", "42\n41\n"),
     ]
